@@ -465,6 +465,30 @@ func c14(c *Ctx) {
 				time.Sleep(time.Duration(r.Intn(8000)) * time.Microsecond)
 			}
 		}
+		if !blocked && h%6 == 4 {
+			// single-processor history: several times a timed search that ends at once by itself,
+			// directly followed by a search without a timer of its own
+			for t := 0; t < 6 && !blocked; t++ {
+				call("stop", func() { s.StopSearch() })
+				if blocked {
+					break
+				}
+				forceRoot = lcSingleRootIdx
+				start([]string{"movetime", "longtime"}[r.Intn(2)])
+				forceRoot = -1
+				if blocked {
+					break
+				}
+				start([]string{"infinite", "ponder"}[r.Intn(2)])
+				rep.Inc("untimed_right_after_instant_timed")
+				time.Sleep(time.Duration(10+r.Intn(40)) * time.Millisecond)
+				call("issearching", func() {
+					v := s.IsSearching()
+					rec.add("issearching-value", map[bool]int64{false: 0, true: 1}[v], 0, "")
+				})
+				call("stop", func() { s.StopSearch() })
+			}
+		}
 		if !blocked && h%4 == 2 {
 			// a burst of stop requests that meet the firing timer
 			for t := 0; t < c.Size(12, 400) && !blocked; t++ {
